@@ -21,7 +21,7 @@ PROPS = {
         lean_modules=["Enc.Props.C03"],
         variants=V_DEFAULT,
         areas=["proto."],
-        allowed_native=["Enc.Lemmas.Proto."],
+        allowed_native=["Enc.Lemmas.Proto"],
         main_theorem="Enc.Props.C03.size_eq_len_encode / roundtrip",
         rule="random message types (reflect.StructOf: scalars, byte arrays, RawMessage, nested/pointer structs, repeated, maps, "
              "protobuf struct tags with numbers/zigzag/fixed) x random values (integer width boundaries, float bit patterns, "
@@ -33,7 +33,7 @@ PROPS = {
     ),
     "C12": dict(
         lean_modules=["Enc.Props.C12"],
-        variants=V_DEFAULT, areas=["proto."], allowed_native=["Enc.Lemmas.Proto.", "Enc.Lemmas.ProtoVarint."],
+        variants=V_DEFAULT, areas=["proto."], allowed_native=["Enc.Lemmas.Proto"],
         main_theorem="Enc.Props.C12 (wire format conformance)",
         rule="random message types x values: (1) Marshal's bytes decoded by the Lean reference decoder (written from the protobuf "
              "encoding spec) must give the same field values; (2) legal re-encodings built by an independent wire-level "
@@ -44,7 +44,7 @@ PROPS = {
     ),
     "C16": dict(
         lean_modules=["Enc.Props.C16"],
-        variants=V_DEFAULT, areas=["proto."], allowed_native=["Enc.Lemmas.Proto.", "Enc.Lemmas.ProtoVarint."],
+        variants=V_DEFAULT, areas=["proto."], allowed_native=["Enc.Lemmas.Proto"],
         main_theorem="Enc.Props.C16.marshalTo_spec",
         rule="random message types x values x EVERY buffer length 0..Size+3 (sampled above 400 bytes in the quick tier, always "
              "including Size-2..Size+1) with 0xEE guard bytes from len to cap: count, bytes, error class, guard bytes; "
@@ -54,7 +54,7 @@ PROPS = {
     ),
     "C07": dict(
         lean_modules=["Enc.Props.C07"],
-        variants=V_DEFAULT, areas=["proto."], allowed_native=["Enc.Lemmas.Proto.", "Enc.Lemmas.ProtoVarint."],
+        variants=V_DEFAULT, areas=["proto."], allowed_native=["Enc.Lemmas.Proto"],
         main_theorem="Enc.Props.C07 (totality / unknown-field skipping)",
         rule="for random message types x values: every prefix of a valid encoding, 6 mutations, unknown fields of every wire "
              "type (numbers up to 2^29-1, nested) inserted at every top-level boundary, Scan/Parse vs an independent wire "
